@@ -36,6 +36,7 @@ def main(replay=None):
     quick = ck.tier != "thorough"
     pf = PROPFILE if os.path.exists(os.path.join(core.COQ, PROPFILE)) else None
     bdir, hb = ck.prepare(pf, "h_c02.cpp")
+    hc.clean_axiom_accounting(ck)
     if hb is None: return ck.finish()
     stats = {}
     if replay:
@@ -81,6 +82,7 @@ def main(replay=None):
     kdist, kbad = hc.run_kernel_metamorphic(ck, hb, 3000 if quick else 30000, lambda rng, size: motion(rng, 2 * size) + (1.0,), "moved")
     topo = {}
     for r in recs: topo[r["topology"]] = topo.get(r["topology"], 0) + 1
+    topo["pairs_with_an_inward_wound_mesh_(orientation_repair)"] = sum(1 for r in recs if r.get("flipped"))
     nontriv = sum(1 for r in recs if not r["singular"] and r["levels"])
     ck.cov.update(evaluations=len(recs) + sum(kdist.values()), distinct_nontrivial=nontriv + sum(kdist.values()),
                   rule="pairs (model, rigid motion) with a well-conditioned head matrix whose gains were all compared at 1e-9 relative Frobenius, plus kernel calls on random arguments vs moved arguments; distinct = distinct generated inputs",
